@@ -32,6 +32,16 @@ def dispatch_calls(ctx: Ctx, f: FuncInfo, getter: str, within: ast.AST | None = 
                 out.append(n)
         elif from_getter(fn):
             out.append(n)
+        elif isinstance(fn, ast.Attribute):
+            # the handler travels in a record built by a helper (`incoming.message_handler(...)`): look through it
+            from ..prov import Canon
+
+            try:
+                t = Canon(ctx.I, f, "").tree(fn)
+            except Exception:  # noqa: BLE001
+                t = None
+            if t is not None and from_getter(t):
+                out.append(n)
     return out
 
 
@@ -399,6 +409,24 @@ def dispatch_total_rule(ctx: Ctx, chk, which: str = "incoming", rule: str = "DIS
     f = ctx.func(DISPATCH if which == "incoming" else DISPATCH_OUT)
     fi = ctx.inl(f, lambda h: True)
     sites = [c for g_, c in ctx.I.dispatch_sites() if g_ is f or g_.qualname in getattr(fi, "inlined", [])]
+    hops = 0
+    while not sites and hops < 3:
+        # the getter only hands over to the function / callable object that holds the lookup: every return of it must
+        # be that one call; the rule is then decided on the function that does the lookup
+        hops += 1
+        rets = [n_ for n_ in ctx.own_nodes(f) if isinstance(n_, ast.Return)]
+        tg = None
+        if len(rets) == 1 and isinstance(rets[0].value, ast.Call):
+            ts = [t for t in ctx.I.resolve_call(rets[0].value, Frame(Callee(f, f.cls, ()), ctx.versions[0])) if t.kind == "repo" and t.frame is not None]
+            if len(ts) == 1:
+                tg = ts[0].frame.func
+        if tg is None:
+            break
+        chk.instance(rule)
+        chk.ok(rule, f"{f.fq}::delegates", f"every return of {f.qualname} is the call of {tg.qualname}", ctx.loc(f, rets[0]), sample=False)
+        f = tg
+        fi = ctx.inl(f, lambda h: True)
+        sites = [c for g_, c in ctx.I.dispatch_sites() if g_ is f or g_.qualname in getattr(fi, "inlined", [])]
     if not sites:
         raise AnalysisError(f"{rule}: dispatch idiom not found in {f.fq}")
     cn = Canon(ctx.I, fi, "")
